@@ -132,8 +132,12 @@ _p('C05', ['r_validate', 'r_features', 'r_table', 'r_norec'],
    'decode arm (R-TABLE); no call cycle is reachable from parse (R-NOREC), so nesting depth cannot grow the call stack.',
    not_decided='termination / absence of hangs (bounded by input length, argued not checked); exactness of wasmparser itself; '
                'panics inside wasmparser/gimli')
-_p('C02', ['r_emitorder', 'r_edges', 'r_visit', 'r_norec'],
-   'No referenced entity is left without an emitted index: emit steps are ordered so that every index space is assigned '
+_p('C02', ['r_emitorder', 'r_edges', 'r_visit', 'r_norec', 'r_segments', 'r_flow', 'r_table', 'r_control'],
+   'Validity is decided as preservation: the input was accepted by the validator (C05), so an output that is the input up to '
+   'consistent renumbering is accepted too.  The type-carrying parts of that isomorphism are checked structurally: every '
+   'operator is re-encoded as itself with its immediates (R-TABLE), block signatures and labels survive (R-CONTROL), every '
+   'module-level record is re-emitted with its full type, element/data segments with their mode, element type and item '
+   'encoding (R-FLOW, R-FLOW-SEG).  No referenced entity is left without an emitted index: emit steps are ordered so that every index space is assigned '
    'before it is looked up (R-EMITORDER, from the MIR of emit_wasm and the instance-level call graph); the GC closure '
    'follows every id-typed field (R-EDGES) and every instruction operand (R-VISIT), so whatever a kept item refers to is '
    'kept and therefore indexed; no recursion is reachable from emit (R-NOREC).',
